@@ -2788,6 +2788,18 @@ func (a *Agent) cleanupRelaysForPeer(peerID identity.AgentID) {
 			logging.KeyPeerID, peerID.ShortString(),
 			logging.KeyCount, cleaned)
 	}
+	// UDP associations and ICMP sessions relayed through this agent use the same
+	// table shape and must not outlive the peer either.
+	if cleaned := a.udpRelay.DeleteByPeer(peerID); cleaned > 0 {
+		a.logger.Debug("cleaned up relay UDP associations",
+			logging.KeyPeerID, peerID.ShortString(),
+			logging.KeyCount, cleaned)
+	}
+	if cleaned := a.icmpRelay.DeleteByPeer(peerID); cleaned > 0 {
+		a.logger.Debug("cleaned up relay ICMP sessions",
+			logging.KeyPeerID, peerID.ShortString(),
+			logging.KeyCount, cleaned)
+	}
 }
 
 // Dial implements socks5.Dialer for SOCKS5 connections.
